@@ -62,9 +62,9 @@ FAC = CheckFn("c20fac", "Model.Domain", "fac_check", FacCaseT)
 BIND = CheckFn("c20bind", "Model.Domain", "bind_check", BindCaseT)
 CHECKFNS = [DOM, FAC, BIND]
 
-F14 = "C20_F14_rebinding_accepted"
-F15 = "C20_F15_index_from_exhausted_iterator"
-F21 = "C20_range_contains_nonintegral"
+F21 = "C20_range_contains_nonintegral"      # the only known finding left (F14, F15 are fixed in /repo)
+
+OPEN_ITEMS = ["RangeDomain.contains accepts non-integers (known finding C20_range_contains_nonintegral): C20_range_contains_refuted + C20_range_contains_integral under the guard; no unproved theorem, no bounded theorem"]
 
 ASSUMPTIONS = [
     "Python values are canonicalised by the harness: int/bool/finite float to the reduced rational they denote (so 1 == 1.0 == True coincide), every other hashable value to a code such that codes are equal iff the values are == (assigned through a dict, i.e. by hash and ==); the int/float distinction is therefore not modelled and floats are never used where an index is expected",
@@ -485,10 +485,10 @@ def gen_fac_cases(rng, tier):
         cases.append(("full", fac_case(d, ["full", sh, "3/4"], rng)))
         if sh:
             cases.append(("full", fac_case(d, ["full", sh[:-1] + [sh[-1] + 1], "3/4"], rng)))
-    # infinite domains, F15 domains, duplicate domains
+    # infinite domains, domains built from a generator, duplicate domains
     cases.append(("inf", fac_case([["range", "inf"]], weights_spec("tensor", [2]), rng)))
     cases.append(("inf", fac_case([gen_domspec(2, 0), ["range", "inf"]], weights_spec("nested", [2, 2]), rng)))
-    cases.append(("f15dom", fac_case([["finite", "gen", dom_values(2, 0)], gen_domspec(2, 1)], weights_spec("tensor", [2, 2]), rng)))
+    cases.append(("gendom", fac_case([["finite", "gen", dom_values(2, 0)], gen_domspec(2, 1)], weights_spec("tensor", [2, 2]), rng)))
     cases.append(("dupdom", fac_case([["finite", "list", ["'a'", "'b'", "'a'"]]], weights_spec("tensor", [3]), rng)))
     # malformed nested lists
     bad = ["[[], [0.75]]", "[[0.75], []]", "[[0.25, 0.5], [0.75]]", "[0.25, [0.5]]", "[[0.5], 0.25]",
@@ -549,7 +549,7 @@ DOMPOOL = {
     "D0": ["finite", "list", []],
     "R2": ["range", 2],
     "R3": ["range", 3],
-    "G2": ["finite", "gen", ["'x'", "'y'"]],         # equal to D2 (index empty, F15)
+    "G2": ["finite", "gen", ["'x'", "'y'"]],         # equal to D2, built from a generator
 }
 
 def fac_spec_for(domnames, const=False, off=1):
@@ -610,7 +610,7 @@ def gen_bind_cases(rng, tier):
             k += 1
             cases.append(("pair", bind_history(["FG", "FGG"][k % 2], m, p, ("f", t, term), fd, const=(k % 7 == 0), rng=rng,
                                                tail=(k % 3 == 0))))
-    # the matching pairings under every pre-state, both classes (so that each success path and F14 is exercised)
+    # the matching pairings under every pre-state, both classes (so that each success path and the refusal of a bound label is exercised)
     for cls in ("FG", "FGG"):
         for m in mappings:
             for t in types:
@@ -634,7 +634,7 @@ def gen_bind_cases(rng, tier):
                 if fr < 0: continue
                 for const in (False, True):
                     cases.append(("arity", bind_history(cls, {"A": "D2"}, "none", ("g", ["A"] * r, True), ["D2"] * fr, const, rng)))
-    # add_domain / new_finite_domain: rebinding a node label must fail; generators (F15)
+    # add_domain / new_finite_domain: rebinding a node label must fail; generators
     for cls in ("FG", "FGG"):
         for kind in ("list", "tuple", "gen", "iter"):
             ops = [["new_finite_domain", "A", kind, ["'x'", "'y'"]], ["new_finite_domain", "A", kind, ["'x'"]],
@@ -685,11 +685,9 @@ def gen_bind_cases(rng, tier):
 # ----------------------------------------------------------------------------
 
 DOM_MSG = {1: "a FiniteDomain/RangeDomain answer violates C20_bijection (verified oracle bij_oracle / range_oracle / eq_oracle rejects it)",
-           4: "FiniteDomain built from a one-shot iterator has an empty index: numberize raises KeyError for its own values (F15)",
            5: "RangeDomain.contains accepts a non-integer inside [0, size) although no denumberize(n) yields it"}
 FAC_MSG = {1: "a FiniteFactor answer violates C20_shape (verified oracle ctor_oracle / apply_oracle / fac_eqb rejects it)"}
-BIND_MSG = {1: "an InterpretationMixin call violates C20_binding (verified oracle bind_spec / domain_spec / shape_of rejects its outcome)",
-            3: "add_factor / new_finite_factor rebinds an edge label that already has a factor (F14)"}
+BIND_MSG = {1: "an InterpretationMixin call violates C20_binding (verified oracle bind_spec / domain_spec / shape_of rejects its outcome)"}
 
 def judge(kind, cf, msgs, keys, items, vals, codes, violations, calls):
     for (gen, spec), v, c in zip(items, vals, codes):
@@ -713,11 +711,16 @@ def obs_summary(kind, v):
 
 RUNNERS = {"dom": (run_dom, DOM), "fac": (run_fac, FAC), "bind": (run_bind, BIND)}
 
-def run_model_c20(cf, values, seed, coq_sample=10, per_code=4):
-    """core.run_model with a kernel re-evaluation that stays cheap on these large case terms
-    (Coq elaborates ~10 kB of case text per second): all cases through the extracted driver;
-    inside Coq (vm_compute), in parallel shards, a random sample plus for every non-zero verdict
-    code its smallest cases; both must agree."""
+KNOWN_CODES = {"c20dom": (5,)}      # verdicts that merely hit a known finding (per check function)
+MAX_REPORTED = 150                  # per non-zero verdict code
+
+def run_model_c20(cf, values, seed, coq_sample=10, per_known=4):
+    """All cases through the extracted driver.  Inside Coq (vm_compute, parallel shards):
+    EVERY case whose non-zero verdict is going to be reported as a violation, a sample of the
+    zero verdicts, and a sample of the verdicts that merely hit a known finding; both evaluations
+    must agree.  Coq elaborates only ~10 kB of case text per second, so at most MAX_REPORTED cases
+    (the smallest) per non-zero code are reported and re-evaluated; the others are only counted.
+    Returns (codes, number re-evaluated, set of indices to report, {code: count not reported})."""
     codes = run_ocaml(cf, values)
     rng = random.Random(seed * 7919 + 13)
     idx = list(range(len(values)))
@@ -725,20 +728,25 @@ def run_model_c20(cf, values, seed, coq_sample=10, per_code=4):
     def sz(i):
         if i not in size: size[i] = len(cf.ty.sexp(values[i]))
         return size[i]
-    pick = set()
+    known = KNOWN_CODES.get(cf.kind, ())
+    pick, report, dropped = set(), set(), {}
     for c in sorted({c for c in codes if c != 0}):
         bad = sorted((i for i in idx if codes[i] == c), key=sz)
-        pick.update(bad[:per_code if c in (3, 4, 5) else 40])    # 3, 4, 5: the known-finding classes
+        if c in known:
+            pick.update(bad[:per_known]); report.update(bad)
+        else:
+            pick.update(bad[:MAX_REPORTED]); report.update(bad[:MAX_REPORTED])
+            if len(bad) > MAX_REPORTED: dropped[c] = len(bad) - MAX_REPORTED
     rest = [i for i in idx if codes[i] == 0]
     rng.shuffle(rest)
     pick.update(rest[:coq_sample])
     pick = sorted(pick)
     if pick:
-        ccodes = run_coq(cf, [values[i] for i in pick], shard=max(1, (len(pick) + 3) // 4), jobs=4, tag=cf.kind)
+        ccodes = run_coq(cf, [values[i] for i in pick], shard=max(1, min(12, (len(pick) + 3) // 4)), jobs=8, tag=cf.kind)
         for i, c in zip(pick, ccodes):
             if c != codes[i]:
                 raise BuildError("extracted code and vm_compute disagree on %s case %d: %d vs %d" % (cf.kind, i, codes[i], c))
-    return codes, len(pick)
+    return codes, len(pick), report, dropped
 
 def nontrivial(kind, spec):
     if kind == "dom":
@@ -754,11 +762,11 @@ def run(tier, seed):
     rng = random.Random(seed)
     violations = []
     gens = {"dom": gen_dom_cases(rng, tier), "fac": gen_fac_cases(rng, tier), "bind": gen_bind_cases(rng, tier)}
-    msgs = {"dom": (DOM_MSG, {4: F15, 5: F21}), "fac": (FAC_MSG, {}), "bind": (BIND_MSG, {3: F14})}
+    msgs = {"dom": (DOM_MSG, {5: F21}), "fac": (FAC_MSG, {}), "bind": (BIND_MSG, {})}
     calls = {"dom": "FiniteDomain(...)/RangeDomain(...): size, contains, numberize, denumberize, ==, !=",
              "fac": "FiniteFactor(doms, weights) / ConstantFactor; .apply(values); ==",
              "bind": "FactorGraph()/FGG('S'): add_domain, add_factor, new_finite_domain, new_finite_factor, shape, add_edge_label"}
-    total = 0; nk_total = 0; hist = {}; distinct = 0; samples = []; verdicts = {}
+    total = 0; nk_total = 0; hist = {}; distinct = 0; samples = []; verdicts = {}; unreported = {}
     import time
     phase = {}; t_last = time.time()
     def lap(name):
@@ -778,10 +786,12 @@ def run(tier, seed):
             items.append((gen, spec)); vals.append(v)
             hist[kind + ":" + gen] = hist.get(kind + ":" + gen, 0) + 1
         lap(kind + ":impl")
-        codes, nk = run_model_c20(cf, vals, seed)
+        codes, nk, report, dropped = run_model_c20(cf, vals, seed)
+        for c, n in dropped.items(): unreported["%s:%d" % (kind, c)] = n
         lap(kind + ":model")
         nk_total += nk; total += len(vals)
-        judge(kind, cf, msgs[kind][0], msgs[kind][1], items, vals, codes, violations, calls[kind])
+        judge(kind, cf, msgs[kind][0], msgs[kind][1], items, vals,
+              [c if i in report else 0 for i, c in enumerate(codes)], violations, calls[kind])
         for c in codes: verdicts["%s:%d" % (kind, c)] = verdicts.get("%s:%d" % (kind, c), 0) + 1
         distinct += len({json.dumps(spec, sort_keys=True) for _, spec in items if nontrivial(kind, spec)})
         if items:
@@ -789,11 +799,13 @@ def run(tier, seed):
             samples.append(dict(kind=kind, spec=items[-1][1]))
     cov = dict(evaluations=total, distinct_nontrivial=distinct,
                rule="dom: every value list of length <= 3 over {0, 1, 'a', None, True} (duplicates and the cross-type duplicate 1/True included) as list, tuple and generator; random domains of size 0..8 over 20 mixed hashable values given as list/tuple/generator/iterator/dict (20% with duplicates); RangeDomain sizes 0,1,2,3,5,inf; each with contains/numberize on members and non-members, denumberize on -n-2..n+1, ==/!= against 5-8 other domains. "
-                    "fac: (domain sizes, weight shape) pairs up to rank 3 over sizes 0..3 (quick: all pairs with sizes <= 2, every matching pair, 900 sampled others; thorough: all 7225) in the three forms nested list / Tensor / PatternedTensor, plus eye/full patterned tensors, infinite and F15 domains, malformed nested lists (ragged, mixed depth, empty rows); apply on every complete value tuple, prefixes, over-long and unknown values; == against 6-9 other factors. "
+                    "fac: (domain sizes, weight shape) pairs up to rank 3 over sizes 0..3 (quick: all pairs with sizes <= 2, every matching pair, 900 sampled others; thorough: all 7225) in the three forms nested list / Tensor / PatternedTensor, plus eye/full patterned tensors, infinite domains and domains built from generators, malformed nested lists (ragged, mixed depth, empty rows); apply on every complete value tuple, prefixes, over-long and unknown values; == against 6-9 other factors. "
                     "bind: every pairing of an edge label (terminal/nonterminal, type over {A,B}, arity 0..3) with a factor (domains over {D2, D3, R2}, arity 0..3) under pre-states (label unregistered / registered / clashing / nonterminal clash / already bound; node labels mapped to equal / different / no domain), all matching pairings under every pre-state, equal-by-content vs different domain in every position, new_finite_domain / new_finite_factor grids, random histories; FactorGraph and FGG alternate; shape() on label lists, tuples, node lists, EdgeLabel, Edge. "
                     "non-trivial = domain of size >= 2 (or range size >= 2), factor of rank >= 1, history with >= 3 calls including a factor binding; distinct by spec",
                samples=samples, phase_seconds=phase, generator_histogram=hist, verdict_histogram=verdicts, kernel_reevaluated=nk_total,
-               open_items=[])
+               kernel_policy="every reported violation is re-evaluated with vm_compute; zero verdicts and known-finding hits are sampled",
+               nonzero_verdicts_counted_but_not_reported=unreported,
+               open_items=OPEN_ITEMS)
     return cov, violations
 
 def replay(path):
@@ -816,7 +828,7 @@ def core_jsonable(x):
 
 MANIFEST = dict(
     level="proof",
-    text="Coq theorems about a Gallina model that follows fggs/domains.py, fggs/factors.py and InterpretationMixin statement by statement: C20_bijection (numberize/denumberize mutually inverse between distinct values and 0..size-1, contains agrees, equality by content; RangeDomain on the integers), C20_shape (a FiniteFactor accepts exactly weights of shape map size domains; apply is the weight at the row-major position of the numberized values; factor equality by domains and elementwise weights), C20_binding (add_factor succeeds iff terminal, label table consistent, arities agree, every node label mapped to an equal domain) -- with the refutation witnesses for F14 (rebinding accepted), F15 (index built from an exhausted iterator) and RangeDomain.contains on non-integers.  The model is tied to /repo by running both on generated domains, factors and call histories; boolean oracles proved sound in Coq judge every implementation answer.",
+    text="Coq theorems about a Gallina model that follows fggs/domains.py, fggs/factors.py and InterpretationMixin statement by statement: C20_bijection (numberize/denumberize mutually inverse between distinct values and 0..size-1, contains agrees, equality by content; RangeDomain on the integers), C20_shape (a FiniteFactor accepts exactly weights of shape map size domains; apply is the weight at the row-major position of the numberized values; factor equality by domains and elementwise weights), C20_binding (add_factor succeeds iff terminal, label table consistent, arities agree, every node label mapped to an equal domain, label not already bound), all at full strength for any iterable of values (F14 and F15 are repaired in /repo 19d007a / 7d2f845; their refutations are kept only about the explicitly named old definitions) -- plus the refutation witness and guarded theorem for RangeDomain.contains on non-integers (known finding).  The model is tied to /repo by running both on generated domains, factors and call histories; boolean oracles proved sound in Coq judge every implementation answer.",
     note="Trusted: Coq kernel + vm_compute, extraction cross-checked against vm_compute, the Python harness that canonicalises values (numbers to rationals, other hashables to codes by ==) and observes object attributes; PatternedTensor inputs are modelled by their dense denotation.",
     technique="Coq proof (model + theorems) + model/implementation correspondence with verified-spec oracle",
     design_ref="DESIGN.md section 6, C20")
